@@ -394,6 +394,7 @@ type boundsAnalysis struct {
 	elemOK    func(t types.Type) bool
 	nilCache  map[string]*nilSummary
 	trueCache map[*types.Func][]lin
+	posCache  map[*types.Func][]posSummary
 }
 
 func newBoundsAnalysis(p *Prog, fns []*FuncInfo) *boundsAnalysis {
@@ -1129,8 +1130,10 @@ func (bf *boundsFunc) assign1(s *bstate, l, r ast.Expr) {
 				return
 			}
 		}
+		before := s.clone() // the arguments are evaluated before the assignment
 		killPath(s, pk)
 		bf.callResultFacts(s, []ast.Expr{l}, r)
+		bf.positionResultFacts(before, s, []ast.Expr{l}, r)
 		return
 	}
 	if _, isS := underSliceOrString(lt); isS {
